@@ -498,7 +498,13 @@ class Interp:
         if f is SAFE_BUILTINS['callable'] and isinstance(args[0], (Func, Bound, Cls)):
             return True
         if f is SAFE_BUILTINS['eval']:
-            raise Unsupported('eval() in generator code')
+            # the translator evaluates option values given as inline Python (True, 2, None):
+            # literals only
+            import ast as _ast
+            try:
+                return _ast.literal_eval(args[0])
+            except Exception:
+                raise Unsupported(f'eval() of a non-literal in generator code: {args[0]!r}')
         if isinstance(f, (Obj,)):
             return self.call(self.getattr(f, '__call__'), args, kwargs)
         if not callable(f):
